@@ -10,6 +10,7 @@ echo "| seed | property | exit | first violated predicate(s) |" >> $out
 echo "|---|---|---|---|" >> $out
 for d in seeded/*/; do
   n=$(basename $d); p=$(echo $n | cut -c1-3)
+  if [ -n "$DEADLINE" ] && [ "$(date +%s)" -gt "$DEADLINE" ]; then echo "| $n | $p | not re-run in this regression (time limit) | |" >> $out; continue; fi
   git -C /repo diff --quiet || { echo "repo dirty"; exit 2; }
   git -C /repo apply /verif/$d/patch.diff || { echo "| $n | $p | patch does not apply | |" >> $out; continue; }
   res=$(./check $p --tier quick 2>/dev/null); rc=$?
